@@ -258,6 +258,23 @@ def deserializeLoop (S : Schema) (d : StructDef) (sizeMember : Option String) : 
       let flushed := waiting.flatMap fun q => deserializeFieldLines S d sizeMember q (some (f.name ++ "_condition"))
       deserializeLoop S d sizeMember rest { st with lines := st.lines ++ own ++ flushed, processed := st.processed ++ [f.name] }
 
+def FK.isReservedKind : FK → Bool | .reserved .. => true | _ => false
+def FK.isBoundSize : FK → Bool | .count .. | .byteSize .. | .sizeOf .. => true | _ => false
+def FK.isComputed : FK → Bool | .sizeRef .. => true | _ => false
+
+/-- `non_reserved_fields()`: not reserved, not a bound size, not computed; the first one dropped when it is called `size` -/
+def nonReservedAll (d : StructDef) : List Field :=
+  match d.fields.filter fun f => !(f.kind.isReservedKind || f.kind.isBoundSize || f.kind.isComputed) with
+  | [] => []
+  | f :: rest => if f.name == "size" then rest else f :: rest
+
+def inheritedNames (d : StructDef) : List String :=
+  if d.base.isSome then (d.fields.take d.inherited).map (·.name) else []
+
+def isInherited (d : StructDef) (f : Field) : Bool := (inheritedNames d).contains f.name
+
+def nonReservedOwn (d : StructDef) : List Field := (nonReservedAll d).filter fun f => !isInherited d f
+
 /-- `size_field` of `get_deserialize_descriptor`: the own member named by `@size` -/
 def ownSizeMember (d : StructDef) : Option Field :=
   (ownFields d).find? fun f => match f.kind with | .sizeF _ => true | _ => false
@@ -281,8 +298,7 @@ def deserializeBody (S : Schema) (ty : String) (d : StructDef) : List String :=
      | some b => ["(window_start, window_end) = " ++ b ++ "._deserialize(buffer, instance)", "buffer = buffer[window_start:window_end]"]
      | none => [])
   let fields := (deserializeLoop S d sizeMember own {}).lines
-  let carrying := own.filter fun f => f.kind.carries
-  let sets := carrying.map fun f => "instance._" ++ printerName f.name ++ " = " ++ printerName f.name
+  let sets := (nonReservedOwn d).map fun f => "instance._" ++ printerName f.name ++ " = " ++ printerName f.name
   header ++ fields ++ ["", "# pylint: disable=protected-access"] ++ sets ++
     [if d.abstract then "return (" ++ sizeLocal d ++ " - len(buffer), " ++ sizeLocal d ++ ")" else "return instance"]
 
@@ -372,9 +388,6 @@ def bytesAliasClass (name : String) (n : Nat) : List String :=
 
 /-! #### struct classes -/
 
-def FK.isReservedKind : FK → Bool | .reserved .. => true | _ => false
-def FK.isBoundSize : FK → Bool | .count .. | .byteSize .. | .sizeOf .. => true | _ => false
-def FK.isComputed : FK → Bool | .sizeRef .. => true | _ => false
 
 /-- `printer.get_type()` -/
 def fieldType (f : Field) : String :=
@@ -397,19 +410,6 @@ def defaultValue (S : Schema) (f : Field) : String :=
 /-- `StructFormatter.field_name(field)` -/
 def selfName (f : Field) : String :=
   if f.kind.isComputed then "self." ++ printerName f.name ++ "_computed" else "self._" ++ printerName f.name
-
-/-- `non_reserved_fields()`: not reserved, not a bound size, not computed; the first one dropped when it is called `size` -/
-def nonReservedAll (d : StructDef) : List Field :=
-  match d.fields.filter fun f => !(f.kind.isReservedKind || f.kind.isBoundSize || f.kind.isComputed) with
-  | [] => []
-  | f :: rest => if f.name == "size" then rest else f :: rest
-
-def inheritedNames (d : StructDef) : List String :=
-  if d.base.isSome then (d.fields.take d.inherited).map (·.name) else []
-
-def isInherited (d : StructDef) (f : Field) : Bool := (inheritedNames d).contains f.name
-
-def nonReservedOwn (d : StructDef) : List Field := (nonReservedAll d).filter fun f => !isInherited d f
 
 /-- `get_paired_const_field`: the first constant whose lower-cased name ends with the member name -/
 def pairedConst (d : StructDef) (f : Field) : Option (String × String × String) :=
